@@ -79,6 +79,23 @@ mod tests;
 #[cfg(test)]
 mod proptests;
 
+// Verification hooks (guard: --cfg quickwit_oss_mrecordlog_verif). Never enabled in normal builds.
+#[cfg(quickwit_oss_mrecordlog_verif)]
+#[allow(unused_macros, unused_imports)]
+mod verif_noop {
+    macro_rules! noop {
+        ($($tt:tt)*) => {};
+    }
+    pub(crate) use noop as error;
+    pub(crate) use noop as info;
+    pub(crate) use noop as warn;
+}
+
+#[cfg(all(kani, quickwit_oss_mrecordlog_verif))]
+mod verif_harness {
+    include!(concat!(env!("MRECORDLOG_VERIF_HARNESS_DIR"), "/harness.rs"));
+}
+
 pub trait Serializable<'a>: Sized {
     /// Clears the buffer first.
     fn serialize(&self, buffer: &mut Vec<u8>);
